@@ -8,7 +8,7 @@ import vlib, gen_json, gen_nb
 from vlib import enc, dec, enc_diff, canon, plain
 from checks import c01, c02
 
-THEOREMS = ['Nbdime.C11_generic_wf', 'Nbdime.diffAt_generic_wf', 'Nbdime.C11_wf_shallow_list', 'Nbdime.wfList_dfl', 'Nbdime.diffFromLcs_eq_dfl', 'Nbdime.lcsBack_matching']
+THEOREMS = ['Nbdime.C11_notebook_wf', 'Nbdime.diffAt_wf', 'Nbdime.C11_generic_wf', 'Nbdime.diffAt_generic_wf', 'Nbdime.C11_wf_shallow_list', 'Nbdime.wfList_dfl', 'Nbdime.diffFromLcs_eq_dfl', 'Nbdime.lcsBack_matching']
 
 
 def schema_validator():
@@ -67,15 +67,75 @@ def check(ctx, items):
         ctx.cov['traces_validated_against_impl'] += 1
 
 
+def model_tie(ctx):
+    """C11_generic_wf / C11_notebook_wf are theorems about the model's differ: (a) per-run obligation: the live differ tables
+    satisfy cfgSoundB and the notebook theorem is instantiated with them; (b) correspondence: the model's differ returns the
+    diff the implementation returns (same recorded oracle answers) on a sample of generic and notebook pairs"""
+    import nbcfg
+    note = None
+    try:
+        cfg = nbcfg.extract_cfg()
+        src = ('import NbdimeProofs\nopen Nbdime\n'
+               'def liveCfg : Cfg := %s\n'
+               'example : cfgSoundB liveCfg = true := by decide +kernel\n'
+               'example (O : Oracle) (hO : OracleOK O) (a b : J) (d : List Op) (ca : a.canonical = true) (cb : b.canonical = true)\n'
+               '    (hab : Compat a b) (h : diffNotebooks O liveCfg a b = .ok d) : wf a d = true :=\n'
+               '  C11_notebook_wf O hO liveCfg (by decide +kernel) a b d ca cb hab h\n' % c01.lean_cfg(cfg))
+        ok, out = vlib.lean_run(src, 'C11_Tables.lean')
+        ctx.cov['obligations'] += 2
+        if ok:
+            ctx.cov['discharged'] += 2
+        else:
+            note = out[-500:]
+    except Exception as e:
+        cfg, note = None, 'extraction of the differ tables failed: %r' % (e,)
+    rng = ctx.rng
+    reqs, want, memos = [], [], []
+    for _ in range(150 if ctx.tier == 'quick' else 2000):
+        a, b = gen_json.pair(rng, alias=False)
+        (r, memo) = c02.impl_diff(a, b)
+        if r[0] == 'ok':
+            reqs.append({'cmd': 'diff', 'a': enc(a), 'b': enc(b), 'memo': memo.to_json()})
+            want.append(enc_diff(r[1]))
+            memos.append((memo, {'a': enc(a), 'b': enc(b)}))
+    if cfg is not None:
+        for _ in range(40 if ctx.tier == 'quick' else 600):
+            a, b, kinds = gen_nb.pair(rng)
+            (r, memo) = c01.impl_diffnb(a, b)
+            if r[0] == 'ok':
+                reqs.append({'cmd': 'diffnb', 'a': enc(a), 'b': enc(b), 'memo': memo.to_json(), 'cfg': cfg})
+                want.append(enc_diff(r[1]))
+                memos.append((memo, {'a': enc(a), 'b': enc(b)}))
+    drv = vlib.Driver()
+    mism = []
+    for rq, w, rep in zip(reqs, want, drv.run(reqs) if reqs else []):
+        ctx.cov['traces_validated_against_impl'] += 1
+        ctx.count('model-differ:' + rq['cmd'])
+        if 'ok' not in rep or json.dumps(rep['ok'], sort_keys=True) != json.dumps(w, sort_keys=True):
+            mism.append({'cmd': rq['cmd'], 'a': rq['a'], 'b': rq['b'], 'impl': w, 'model': rep})
+    vlib.check_oracle_hypothesis(ctx, drv, memos)
+    ctx.cov['correspondence_mismatches'] = len(mism)
+    if note and not ctx.violations:
+        ctx.violation('generated obligation (live differ tables satisfy cfgSoundB; C11_notebook_wf instantiated) no longer checks: ' + note,
+                      {'kind': 'obligation', 'theorem': 'gen/C11_Tables.lean', 'output': note}, found=False, classify=False)
+    if mism and not ctx.violations:
+        ctx.violation('the model differ (theorems C11_generic_wf / C11_notebook_wf) and the implementation return different diffs on %d pair(s)' % len(mism),
+                      {'kind': 'correspondence', 'stream': 'C11 model differ', 'first': mism[0]}, found=False, classify=False)
+
+
 def run(ctx):
     ctx.cov['rule'] = ('every diff returned by nbdime.diff (generic pairs), diff_notebooks (notebook pairs) and every '
                        'local/remote/custom diff inside merge decisions; non-trivial = non-empty diff; distinct by (base, diff)')
     vlib.audit(ctx, 'NbdimeProofs', THEOREMS)
     check(ctx, collect(ctx))
+    model_tie(ctx)
 
 
 def replay(path):
     data = json.load(open(path))['data']
+    if data.get('kind') in ('obligation', 'correspondence'):
+        print(json.dumps(data)[:1500])
+        return 1
     ctx = vlib.Ctx('C11', 'quick', 0)
     check(ctx, [(data.get('origin', 'replay'), dec(data['doc']), data['raw'])])
     for what, p, found in ctx.violations:
